@@ -233,6 +233,7 @@ func cmdCheck(args []string) int {
 				}
 				// obligation outside the region
 				o.Extra = append(o.Extra, Not(r))
+				o.KF = true
 				// is the region still a counterexample?
 				in := *o
 				in.Name = o.Name + "@" + f.ID
@@ -242,7 +243,7 @@ func cmdCheck(args []string) int {
 			}
 		}
 	}
-	Discharge(claimed, dir, timeout, 16, tier == "thorough")
+	Discharge(claimed, dir, timeout, 16, true)
 	Discharge(extra, dir, 4, 16, false)
 	if tier == "thorough" {
 		secondSolver(claimed, dir, timeout)
@@ -265,6 +266,7 @@ func cmdCheck(args []string) int {
 		data, _ := json.MarshalIndent(baseline, "", " ")
 		os.MkdirAll(filepath.Join(*vdir, "baseline"), 0o755)
 		os.WriteFile(filepath.Join(*vdir, "baseline", "obligations.json"), data, 0o644)
+		base = map[string]bool{}
 		for _, n := range names {
 			base[n] = true
 		}
@@ -327,6 +329,13 @@ func cmdCheck(args []string) int {
 		default:
 			undecided++
 			fmt.Printf("UNDECIDED obligation %s (%s) is not discharged and is not in the baseline\n", a.name, st)
+		}
+	}
+	// vacuity: the hypotheses of an obligation must be satisfiable (cover query)
+	for _, o := range claimed {
+		if o.Cover == "unsat" {
+			fmt.Printf("VACUOUS obligation %s at %s: its hypotheses are unsatisfiable (contradictory contract or assumption)\n", o.Name, o.Pos)
+			engineFault = true
 		}
 	}
 	// vacuity: every baseline obligation must still be generated
